@@ -161,9 +161,9 @@ reg("C16",
     "and ALL interleavings at every source line of the tawazi package (sys.settrace) within the preemption bound (iterative context bounding). Oracle: every operation's outcome equals its outcome when run alone; every DAG built under "
     "concurrency has the node table (ids, argument references, flags, constants, edges) of the DAG built alone and returns the same value on a probe input; no thread is left blocked. "
     "states = distinct (points reached per thread, running thread) configurations at choice points. non-trivial = schedules with at least one real choice",
-    "31 scenarios at synchronisation points with <= 2 preemptions (every switch away from a runnable thread counts); 12 of them at line points with <= 1 preemption "
+    "27 scenarios at synchronisation points with <= 2 preemptions (every switch away from a runnable thread counts); 12 of them at line points with <= 1 preemption "
     "(c16.QUICK_LINE); horizon 60000 scheduling points per execution",
-    "31 scenarios at synchronisation points with <= 3 preemptions; all of them at line points with <= 2 preemptions (time-capped, simplest first)",
+    "27 scenarios at synchronisation points with <= 3 preemptions; all of them at line points with <= 2 preemptions (time-capped, simplest first)",
     ["most scenario DAGs use main-thread nodes only, so no thread exists that the baton scheduler does not own; in the pooled_call scenarios the worker threads of the library's own pools run pure node functions freely (they finish by themselves) while the two scheduler threads interleave under the baton",
      "every lock object found in a global of a tawazi module is replaced by a cooperative lock before a scenario runs (a real lock held across a baton hand-over would block the process)",
      "five scenarios (first_call||first_call, setup(pa)||setup(pb), call||setup(pb), slow_setup||debug_call, slow_setup||slow_setup) go beyond the letter of the quantifier, which speaks of calls AFTER the setup nodes have run and of the operations call / build / bare call: see DESIGN.md 9.3",
